@@ -39,6 +39,7 @@ case "$FAKE_JAVA_MODE" in
   corrupt_jar) echo "Error: Unable to access jarfile /some/where/ODK_Validate.jar" >&2; exit 1 ;;
   corrupt_jar_after_notice) echo "Picked up JAVA_TOOL_OPTIONS: -Xmx64m" >&2; echo "Error: Unable to access jarfile /some/where/ODK_Validate.jar" >&2; exit 1 ;;
   killed) kill -9 $$ ;;
+  hang) exec /bin/sleep 250 ;;
   *) exit 0 ;;
 esac
 '''
@@ -117,15 +118,16 @@ def execute(cfg, repo):
         if os.path.exists(log):
             os.unlink(log)
         e = cfg["entry"]
-        obs = {"ev": "observed", "exc": "none", "code": 0, "warn_stderr": False, "warn_badrc": False, "msg_clean": False, "msg_carries": False, "raw": ""}
+        obs = {"ev": "observed", "exc": "none", "code": 0, "warn_stderr": False, "warn_badrc": False, "warn_timeout": False, "msg_clean": False, "msg_carries": False, "raw": ""}
         carried = CARRIED.get(cfg["vout"], "\x00")
         if e == "lib":
-            p = subprocess.run([py, "-c", LIB_DRIVER, form_path], env=env, capture_output=True, text=True, timeout=200)
+            p = subprocess.run([py, "-c", LIB_DRIVER, form_path], env=env, capture_output=True, text=True, timeout=300)
             res = json.loads(p.stdout.split("@@RESULT@@")[1]) if "@@RESULT@@" in p.stdout else {"exc": "crash:noresult", "message": p.stderr[-300:], "warnings": []}
             obs["exc"] = res["exc"]
             ws = "\n".join(res.get("warnings") or [])
             obs["warn_stderr"] = "something about" in ws
             obs["warn_badrc"] = "Bad return code" in ws
+            obs["warn_timeout"] = "took to long" in ws
             obs["msg_clean"] = msg_clean(res.get("message") or "")
             obs["msg_carries"] = carried in (res.get("message") or "")
             obs["raw"] = (res.get("message") or "")[:300]
@@ -137,7 +139,7 @@ def execute(cfg, repo):
                 args.append("--skip_validate")
             if e == "cli_odk":
                 args.append("--odk_validate")
-            p = subprocess.run(args, env=env, capture_output=True, text=True, timeout=200, cwd=outd)
+            p = subprocess.run(args, env=env, capture_output=True, text=True, timeout=300, cwd=outd)
             text = p.stdout + p.stderr
             obs["raw"] = text[-400:]
             if e in ("cli_json", "cli_json_skip"):
@@ -154,6 +156,7 @@ def execute(cfg, repo):
                     ws = "\n".join(resp.get("warnings") or [])
                     obs["warn_stderr"] = "something about" in ws
                     obs["warn_badrc"] = "Bad return code" in ws
+                    obs["warn_timeout"] = "took to long" in ws
                     obs["msg_clean"] = msg_clean(msg)
                     obs["msg_carries"] = carried in msg
                     if resp["code"] == 999:
@@ -176,6 +179,7 @@ def execute(cfg, repo):
                     obs["exc"] = "crash:exit%d" % p.returncode
                 obs["warn_stderr"] = "something about" in text
                 obs["warn_badrc"] = "Bad return code" in text
+                obs["warn_timeout"] = "took to long" in text
         obs["tmp"] = len(os.listdir(tmpd))
         if os.path.exists(out_path):
             content = open(out_path, encoding="utf-8").read()
